@@ -13,6 +13,7 @@ DELIMS = {
     "default": ("{%", "%}", "{{", "}}", "{#", "#}", None, None),
     "angle": ("<%", "%>", "<%=", "%>", "<!--", "-->", None, None),
     "dollar": ("$%", "%$", "${", "}", "$#", "#$", None, None),
+    "asp": ("<%", "%>", "<%=", "%>", "<%#", "#%>", None, None),
     "line": ("{%", "%}", "{{", "}}", "{#", "#}", "#", "##"),
     "linepct": ("<%", "%>", "${", "}", "<%#", "%>", "%", "%%"),
 }
